@@ -1,15 +1,19 @@
 #!/bin/bash
-# runs every behaviour-preserving refactoring under the given directory (*/patch.diff) through all checks; any report is a false alarm
+# runs every behaviour-preserving refactoring given (*/patch.diff) through all checks; any report is a false alarm
+# (except for the patches listed, with the reason, in refactors/EXPECTED_ALARMS.txt). JOBS=n patches at a time (default 4).
 cd /verif
-for pf in "$@"; do
+one() {
+  pf=$1
   out=$(./seedtool.sh detect $pf 2>&1)
   c=$(echo "$out" | grep DETECT | sed 's/.*caught-by://')
   name=$(basename $(dirname $(realpath $pf)))
   if grep -q "^$name " refactors/EXPECTED_ALARMS.txt 2>/dev/null; then
     case "$c" in *NONE*|"") echo "$name: alarms:$c (listed in EXPECTED_ALARMS.txt but silent)";; *) echo "$name: EXPECTED-ALARM:$c";; esac
-    continue
+    return
   fi
-  echo "$(echo $pf | sed 's#.*/out/##; s#/patch.diff##'): alarms:$c"
-  [ -n "$(echo "$out" | grep DETECT)" ] || echo "  ERROR: no verdict for $pf"
-  case "$c" in *NONE*) ;; *) echo "$out" | grep -E "^\s+\[" | cut -c1-260 | head -4;; esac
-done
+  echo "$name: alarms:$c"
+  [ -n "$(echo "$out" | grep DETECT)" ] || echo "$name:  ERROR: no verdict for $pf"
+  case "$c" in *NONE*) ;; *) echo "$out" | grep -E "^\s+\[" | cut -c1-260 | head -${SHOW:-4} | sed "s/^/$name:/";; esac
+}
+export -f one
+printf '%s\n' "$@" | xargs -P ${JOBS:-4} -I{} bash -c 'one {}' | sort
